@@ -257,10 +257,15 @@ def _ob_empty_refill(k1: int, k2: int, via_other: bool) -> bool:
     pre: 0 <= k1 < 2 and 0 <= k2 < 2
     post: __return__
     """
+    return _empty_refill(PART, PATH, k1, k2, via_other)
+
+
+def _empty_refill(kind, path, k1, k2, via_other):
+    # (no contract on this helper: it is also called from harness.c05, and CrossHair
+    # enforces the contracts of callees)
     import nixio
-    kind = PART
     nixfake.begin()
-    f = nixio.File(PATH, "w")
+    f = nixio.File(path, "w")
     blk = f.create_block("blk", "t")
     a = blk.create_data_array("a", "t", data=[1.0])
     b = blk.create_data_array("b", "t", data=[2.0])
